@@ -14,7 +14,7 @@ VARIABLE sc
 Seed == atoi(IOEnv.VERIF_SEED)
 PV(s, a, b, c) == Q(((7 * a + 3 * b + 5 * c + 11 * s) % 9) - 4, 2)
 
-ExprIds == {"d1", "d2", "d3", "d4", "d5", "d6", "d7", "d8", "d9", "dq", "dq1"}
+ExprIds == {"d1", "d2", "d3", "d4", "d5", "d6", "d7", "d8", "d9", "dq", "dq1", "dq2"}
 ExprOf(id) == CASE id = "d1" -> Sq(X(1))
                 [] id = "d2" -> Times(X(1), Tm)
                 [] id = "d3" -> Plus(Times(X(1), X(1)), Sq(Tm))
@@ -25,18 +25,19 @@ ExprOf(id) == CASE id = "d1" -> Sq(X(1))
                 [] id = "d9" -> Plus(Times(X(5), X(2)), Times(X(4), Tm))        \* members of a matrix state and the scalar declared after it (R9)
                 [] id = "dq" -> Plus(Times(QS(1), X(1)), QS(2))               \* quadrature states (declared with state(quad=True)) next to a state
                 [] id = "dq1" -> QS(1)
+                [] id = "dq2" -> Plus(Times(X(1), Tm), Sq(Tm))                   \* no quadrature state in the expression, but the stage has some; explicit time
                 [] id = "d7" -> Minus(Times(Times(X(1), X(1)), X(1)), Times(CI(3), Tm))
 Space == [rhs : {"R1", "R2", "R3", "R4", "R5", "R9"}, e : ExprIds, seed : {Seed, Seed + 1, Seed + 2}, order : {1, 2}]
 Uses2(e) == FALSE
 \* the derivative of an expression of the states mentions the controls, for which der() is documented to raise:
 \* second derivatives are taken of pure time expressions only
-Init == sc \in {s \in Space : (s.e = "d4" => s.rhs \in {"R2", "R3", "R4", "R9"}) /\ (s.order = 2 => s.e = "d8") /\ (s.e = "d9" <=> s.rhs = "R9") /\ (s.e \in {"dq", "dq1"} => s.rhs \in {"R1", "R2", "R5"})}
+Init == sc \in {s \in Space : (s.e = "d4" => s.rhs \in {"R2", "R3", "R4", "R9"}) /\ (s.order = 2 => s.e = "d8") /\ (s.e = "d9" <=> s.rhs = "R9") /\ (s.e \in {"dq", "dq1", "dq2"} => s.rhs \in {"R1", "R2", "R5"})}
 Next == UNCHANGED sc
 
 Point(d, s) == [x |-> Tup([i \in 1..Len(d.states) |-> PV(s, 1, 1, i)]), u |-> Tup([i \in 1..Len(d.controls) |-> PV(s, 2, 1, i)]),
                 z |-> <<>>, p |-> Tup([i \in 1..Len(d.params) |-> PV(s, 3, 1, i)]), v |-> Tup([i \in 1..Len(d.vars) |-> PV(s, 4, 1, i)]),
                 q |-> Tup([i \in 1..Len(d.quads) |-> PV(s, 6, 1, i)]), t |-> PV(s, 5, 1, 1), T |-> R(2), t0 |-> One, DT |-> BAD, DTc |-> BAD]
-DeclOf(s) == IF s.e \in {"dq", "dq1"} THEN [Rhs(s.rhs, 2) EXCEPT !.quads = <<Q1, Q2>>, !.qstates = TRUE] ELSE Rhs(s.rhs, 2)
+DeclOf(s) == IF s.e \in {"dq", "dq1", "dq2"} THEN [Rhs(s.rhs, 2) EXCEPT !.quads = <<Q1, Q2>>, !.qstates = TRUE] ELSE Rhs(s.rhs, 2)
 DerN(e, d, n) == IF n = 1 THEN DerQ(e, d.rhs, d.quads) ELSE DerQ(DerQ(e, d.rhs, d.quads), d.rhs, d.quads)
 
 Emit == LET d == DeclOf(sc)
